@@ -493,7 +493,21 @@ func ToQuantity(ctx *expr.Context, input system.Collection, args ...expr.Express
 		if len(res) == 2 {
 			unit = strings.Trim(res[1], "'")
 		}
-		result := system.MustParseQuantity(res[0], unit)
+		result, err := system.ParseQuantity(res[0], unit)
+		if err != nil {
+			// The pattern accepts any (or no) whitespace between number and unit, so the
+			// part before the first space need not be the number ("5'mg'", "5\tmg", "5days").
+			// Take number and unit from the pattern's groups instead of panicking.
+			if u := matches[regex.SubexpIndex("unit")]; u != "" {
+				unit = u
+			} else if t := matches[regex.SubexpIndex("time")]; t != "" {
+				unit = t
+			}
+			result, err = system.ParseQuantity(matches[regex.SubexpIndex("value")], unit)
+			if err != nil {
+				return system.Collection{}, nil
+			}
+		}
 		return system.Collection{result}, nil
 	case system.Boolean:
 		if value {
